@@ -15,7 +15,7 @@ func init() {
 			"Exempt (entry, sink) pairs are listed one by one with the reason. Module-account protection of tokenfactory mint/burn/force-transfer is checked as ordinary guards.",
 		NotCovered:  []string{"'leaving all balances and records unchanged' on failure (SDK transaction atomicity is trusted)", "reachability of objects over histories", "wasm hooks"},
 		Assumptions: []string{"message signer = the field parsed by GetSigners (cross-checked structurally)", "call depth <= 7 frames inside osmosis packages"},
-		MinObl:      94,
+		MinObl:      96,
 		Run:         runC20,
 	})
 }
@@ -115,6 +115,9 @@ func runC20(c *rules.Ctx) {
 	c.Returns(tf+"IsModuleAcc", 0, "lookup(k.permAddrMap,sdk.AccAddress.String(addr))", "IsModuleAcc looks the address up in the protected-address set", "")
 	c.MapFieldFilled("x/tokenfactory/keeper.NewKeeper", "permAddrMap", "sdk.AccAddress.String(authtypes.PermissionsForAddress.GetAddress(authtypes.NewPermissionsForAddress(next(range(maccPerms))#1,_)))", "true", "the protected-address set holds the address of every module account handed to the keeper")
 	c.MapFieldFilled("x/tokenfactory/keeper.NewKeeper", "permAddrs", "next(range(maccPerms))#1", "authtypes.NewPermissionsForAddress(next(range(maccPerms))#1,_)", "the protected-module table holds every module account handed to the keeper")
+	// the wasm binding's mint: the final recipient (not the contract) is the address checked against the protected set
+	c.FailsWhen("wasmbinding.PerformMint", "tokenfactorykeeper.Keeper.IsModuleAcc(f,ctx,wasmbinding.parseAddress(mint.MintToAddress)#0)", "a contract cannot mint into a protected module account through the binding", rules.GuardOpt{Before: "bankkeeper.BaseSendKeeper.SendCoins"})
+	c.CallArg("wasmbinding.PerformMint", "bankkeeper.BaseSendKeeper.SendCoins", 3, "wasmbinding.parseAddress(mint.MintToAddress)#0", "…and the checked address is the one credited")
 	c.Let("FROM", "sdk.AccAddressFromBech32(fromAddr)#0")
 	c.Let("TO", "sdk.AccAddressFromBech32(toAddr)#0")
 	c.Let("MODADDR", "sdk.ModuleAccountI.GetAddress(tokenfactorytypes.AccountKeeper.GetModuleAccount(k.accountKeeper,ctx,elem(has(next(range(k.permAddrs))#1))))")
